@@ -170,10 +170,27 @@ def unwrap_some(rng, case, atol, matched=None):
     return n_out
 
 
-def random_case(rng, mode=None, shared=None, f=None, replace_all=None, pname=None, cell_kind=None, ncopies=None, unwrapped=None):
-    """one C04 case: dict(sj, pj, rj, atol, f, replace_all, ignore, seed, info)"""
+SPARE_ELEMENTS = ["He", "Li", "Be", "Na", "Mg", "Al"]
+ATOLS = [0.05, 0.05, 0.05, 0.05, 0.02, 0.1, 0.2]
+
+
+def add_spare_types(rng, sj, where="end"):
+    """declare 1-2 atom types that no atom uses (as a LAMMPS data file may, or as an earlier replacement that replaced
+    nothing leaves behind) at the END of the type tables"""
+    from mofun.atomic_masses import ATOMIC_MASSES
+    for _ in range(rng.randint(1, 2)):
+        e = rng.choice([x for x in SPARE_ELEMENTS if x not in sj["types"]["elem"]] or SPARE_ELEMENTS)
+        sj["types"]["elem"].append(e)
+        sj["types"]["label"].append(e + "_spare")
+        sj["types"]["mass"].append(core.q(ATOMIC_MASSES[e]))
+    return sj
+
+
+def random_case(rng, mode=None, shared=None, f=None, replace_all=None, pname=None, cell_kind=None, ncopies=None, unwrapped=None,
+                atol=None, hints=None, return_num=None, spare=None):
+    """one C04 case: dict(sj, pj, rj, atol, f, replace_all, ignore, seed, hints, return_num, info)"""
     pname = pname or rng.choice([k for k in fl.PATTERNS])
-    atol = 0.05
+    atol = atol if atol is not None else rng.choice(ATOLS)
     boundary = rng.choice([None, None, "face", "corner"])
     case = fl.planted_structure(rng, pname=pname, cell_kind=cell_kind, ncopies=ncopies if ncopies is not None else rng.choice([1, 2, 3, 3, 4, 4, 5, 5]),
                                 atol=atol, decoys=rng.random() < 0.5, boundary=boundary)
@@ -188,6 +205,56 @@ def random_case(rng, mode=None, shared=None, f=None, replace_all=None, pname=Non
         f = rng.choice(F_WEIGHTED) if rng.random() < 0.7 else round(rng.random(), rng.choice([2, 3, 6]))
     if replace_all is None:
         replace_all = rng.random() < 0.3
+    if spare if spare is not None else rng.random() < 0.2:
+        add_spare_types(rng, sj)
+        rinfo = dict(rinfo, spare_types=True)
+    if hints is None:
+        from . import gen_find_c01
+        hints = gen_find_c01.valid_hints(rng, case["pattern"]) if rng.random() < 0.25 else (None, None, None)
+    if return_num is None:
+        return_num = rng.random() >= 0.15
     info = dict(case["info"], boundary=boundary, outside=n_out, **rinfo)
     return {"op": "replace-c04", "sj": sj, "pj": pj, "rj": rj, "atol": atol, "f": f, "replace_all": bool(replace_all),
-            "ignore": False, "seed": rng.randrange(1 << 30), "info": info}
+            "ignore": False, "seed": rng.randrange(1 << 30), "hints": [None if h is None else int(h) for h in hints],
+            "return_num": bool(return_num), "info": info}
+
+
+def second_step(rng, inp1, res1, mode=None):
+    """the follow-up replacement of a two-step history: the structure is the RESULT of the first call (re-tagged with
+    unique charges so that the oracle can recognise every atom), the search pattern is the same, the replacement a
+    fresh one (labels '_2', charges 2000+)"""
+    import copy
+    sj = copy.deepcopy(res1)
+    for i, a in enumerate(sj["atoms"]):
+        a["q"] = core.q(i + 1)
+    pj = inp1["pj2"] if "pj2" in inp1 else inp1["pj"]
+    pe = [pj["types"]["elem"][a["ty"]] for a in pj["atoms"]]
+    pp = [[core.unq(v) for v in a["pos"]] for a in pj["atoms"]]
+    selems = sorted(set(sj["types"]["elem"][a["ty"]] for a in sj["atoms"]))
+    relems, rpos, rinfo = make_replacement(rng, pe, pp, mode=mode or rng.choice(["smaller", "equal", "larger", "larger"]),
+                                           struct_elems=selems)
+    rj = pattern_json(relems, rpos, charges=[2000 + i for i in range(len(relems))], groups=[rng.randint(7, 9) for _ in relems],
+                      label_suffix="_2")
+    info = dict(inp1["info"], **rinfo)
+    info["step"] = 2
+    info["step1"] = inp1["info"].get("step1kind", "?")
+    return {"op": "replace-c04", "sj": sj, "pj": pj, "rj": rj, "atol": inp1["atol"],
+            "f": rng.choice([1.0, 1.0, 1.0, 0.5, 0.75]), "replace_all": bool(rng.random() < 0.25), "ignore": False,
+            "seed": rng.randrange(1 << 30), "hints": [None, None, None], "return_num": bool(rng.random() >= 0.15), "info": info}
+
+
+def first_step(rng):
+    """step 1 of a two-step history: a replacement that replaces nothing (fraction 0 / search pattern absent) or only
+    some matches (fraction 0.5), with a NON-empty replacement so that its types are appended to the tables"""
+    kind = rng.choice(["f0", "f0", "absent", "absent", "half"])
+    inp = random_case(rng, mode=rng.choice(["smaller", "equal", "larger"]), f={"f0": 0.0, "absent": 1.0, "half": 0.5}[kind],
+                      spare=False)
+    inp["info"]["step"] = 1
+    inp["info"]["step1kind"] = kind
+    if kind == "absent":
+        # search for something that is not there; step 2 looks for the planted pattern
+        inp["pj2"] = inp["pj"]
+        e = rng.choice([x for x in SPARE_ELEMENTS if x not in inp["sj"]["types"]["elem"]])
+        inp["pj"] = pattern_json([e, e], [[0, 0, 0], [Fraction(3, 2), 0, 0]])
+        inp["hints"] = [None, None, None]
+    return inp
